@@ -7,6 +7,19 @@
 #include <etl/functional.hpp>
 #include <etl/new.hpp>
 #define VF_E extern "C"
+#if defined(VF_LOWERING)
+// clang-14 (the lowering front end) instantiates detail::variant_alternative_selector<Ts...> eagerly while it instantiates the class
+// variant<Ts...>; for a REPEATED alternative type its initialiser overload{single<int>{}, single<int>{}} has a duplicate direct base
+// (hard error in clang-14 only: g++ 12 and clang-16 instantiate it lazily, i.e. never for the index-based API). The selector is used
+// by variant(T&&) / operator=(T&&) only, which no entry point below calls for these types; the native replay compiles WITHOUT this shim.
+namespace etl::detail {
+template <>
+inline constexpr auto variant_alternative_selector<int, int> = etl::overload{variant_alternative_selector_single<int>{}};
+template <>
+inline constexpr auto variant_alternative_selector<unsigned, float, unsigned>
+    = etl::overload{variant_alternative_selector_single<unsigned>{}, variant_alternative_selector_single<float>{}};
+} // namespace etl::detail
+#endif
 namespace vf {
 using etl::size_t;
 using OI = etl::optional<int>;
@@ -14,7 +27,7 @@ using OL = etl::optional<long>;
 using VT = etl::variant<int, char, long>;
 using VM = etl::variant<etl::monostate, int>;
 using EX = etl::expected<int, char>;
-// variant<int,int> / expected<int,int> do not compile with the clang front end (variant_alternative_selector: duplicate direct base class)
+// variant<int,int> / variant<unsigned,float,unsigned> / expected<int,int>: see the VF_LOWERING shim above and the section at the end
 using EL = etl::expected<long, char>;
 using UX = etl::unexpected<char>;
 using UI = etl::unexpected<int>;
@@ -431,4 +444,322 @@ VF_E unsigned vf_rel6(unsigned ia, int xa, float fa, unsigned ib, int xb, float 
     auto const b = mk_vf(ib, xb, fb);
     return (a == b ? 1U : 0U) | (a != b ? 2U : 0U) | (a < b ? 4U : 0U) | (a <= b ? 8U : 0U) | (a > b ? 16U : 0U) | (a >= b ? 32U : 0U);
 }
+
+// ================================================================ repeated alternative types, one alternative, optional<bool>, aliasing
+// [variant.*] is specified in terms of the INDEX; a variant with a repeated alternative type is only reachable through the index-based
+// API (in_place_index / emplace<I> / get_if<I> / unchecked_get<I> / operator[]). holds_alternative<T> / get_if<T> / emplace<T> /
+// in_place_type<T> are ill-formed for a repeated T and are therefore instantiated for the UNIQUE alternative (float) only.
+using VD = etl::variant<int, int>;
+using VU = etl::variant<unsigned, float, unsigned>;
+using V1 = etl::variant<int>;
+using EI = etl::expected<int, int>;
+using ELI = etl::expected<long, int>;
+using OB = etl::optional<bool>;
+struct P2 { int a; short b; };   // trivially copyable, NOT scalar: optional<P2> = P2 takes the perfect-forwarding assignment
+using OP = etl::optional<P2>;
+struct flog_t { int calls; int which; int which2; long arg; long arg2; float farg; float farg2; };
+
+template <typename V>
+static auto rel6(V const& a, V const& b) -> unsigned
+{
+    return (a == b ? 1U : 0U) | (a != b ? 2U : 0U) | (a < b ? 4U : 0U) | (a <= b ? 8U : 0U) | (a > b ? 16U : 0U) | (a >= b ? 32U : 0U);
+}
+// visitor by TYPE: which = 1 int, 2 unsigned, 3 float, 4 char, 5 long; the argument is recorded without conversion
+struct vist {
+    flog_t* log;
+    auto operator()(int const& x) const -> long { log->calls++; log->which = 1; log->arg = x; return 3L * x + 1L; }
+    auto operator()(unsigned const& x) const -> long { log->calls++; log->which = 2; log->arg = x; return 7L + x; }
+    auto operator()(float const& x) const -> long { log->calls++; log->which = 3; log->farg = x; return -2L; }
+};
+// mutating visitor: reference to the stored alternative
+struct vist_set {
+    flog_t* log;
+    auto operator()(int& x) const -> int { log->calls++; log->which = 1; log->arg = x; x = x ^ 0x5a5a; return 10; }
+    auto operator()(unsigned& x) const -> int { log->calls++; log->which = 2; log->arg = x; x = ~x; return 11; }
+    auto operator()(float& x) const -> int { log->calls++; log->which = 3; log->farg = x; x = 2.5F; return 12; }
+};
+template <typename T>
+static auto rec(flog_t* log, bool second, T const& v) -> void
+{
+    if constexpr (etl::is_same_v<T, float>) { (second ? log->farg2 : log->farg) = v; }
+    else { (second ? log->arg2 : log->arg) = static_cast<long>(v); }
+}
+template <typename T>
+inline constexpr int type_code = etl::is_same_v<T, int> ? 1 : etl::is_same_v<T, unsigned> ? 2 : etl::is_same_v<T, float> ? 3 : etl::is_same_v<T, char> ? 4 : 5;
+// visit_with_index visitors: which = index, which2 = type code of the alternative handed over
+struct visti {
+    flog_t* log;
+    template <typename P>
+    auto operator()(P p) const -> long
+    {
+        using T = etl::remove_cvref_t<decltype(p.value())>;
+        log->calls++;
+        log->which  = static_cast<int>(p.index.value);
+        log->which2 = type_code<T>;
+        rec<T>(log, false, p.value());
+        return 40L + static_cast<long>(p.index.value);
+    }
+};
+struct visti2 {
+    flog_t* log;
+    template <typename P, typename Q>
+    auto operator()(P p, Q q) const -> long
+    {
+        using T = etl::remove_cvref_t<decltype(p.value())>;
+        using U = etl::remove_cvref_t<decltype(q.value())>;
+        log->calls++;
+        log->which  = static_cast<int>(p.index.value * 8 + q.index.value);
+        log->which2 = type_code<T> * 8 + type_code<U>;
+        rec<T>(log, false, p.value());
+        rec<U>(log, true, q.value());
+        return 50L + static_cast<long>(p.index.value * 8 + q.index.value);
+    }
+};
+struct vist2 {
+    flog_t* log;
+    template <typename A, typename B>
+    auto operator()(A const& a, B const& b) const -> long
+    {
+        log->calls++;
+        log->which = type_code<A> * 8 + type_code<B>;
+        rec<A>(log, false, a);
+        rec<B>(log, true, b);
+        return 60L + type_code<A> * 8 + type_code<B>;
+    }
+};
+
+// ---------------------------------------------------------------- variant<int,int>
+VF_E void vd_default(VD* out) { new (out) VD; }
+VF_E void vd_inplace_0(VD* out, int x) { new (out) VD(etl::in_place_index<0>, x); }
+VF_E void vd_inplace_1(VD* out, int const& x) { new (out) VD(etl::in_place_index<1>, x); }
+VF_E void vd_inplace_1_short(VD* out, short x) { new (out) VD(etl::in_place_index<1>, x); }
+VF_E void vd_copy_ctor(VD* out, VD const& o) { new (out) VD(o); }
+VF_E void vd_move_ctor(VD* out, VD& o) { new (out) VD(etl::move(o)); }
+VF_E VD* vd_copy_assign(VD& a, VD const& b) { return &(a = b); }
+VF_E VD* vd_move_assign(VD& a, VD& b) { return &(a = etl::move(b)); }
+VF_E int* vd_emplace_0(VD& a, int const& x) { return &a.emplace<0>(x); }
+VF_E int* vd_emplace_1(VD& a, int const& x) { return &a.emplace<1>(x); }
+VF_E int* vd_emplace_1_short(VD& a, short x) { return &a.emplace<1>(x); }
+VF_E void vd_swap_free(VD& a, VD& b) { swap(a, b); }
+VF_E size_t vd_index(VD const& v) { return v.index(); }
+VF_E int* vd_get_if_0(VD* v) { return etl::get_if<0>(v); }
+VF_E int* vd_get_if_1(VD* v) { return etl::get_if<1>(v); }
+VF_E int const* vd_cget_if_0(VD const* v) { return etl::get_if<0>(v); }
+VF_E int const* vd_cget_if_1(VD const* v) { return etl::get_if<1>(v); }
+VF_E int* vd_uget_0(VD& v) { return &etl::unchecked_get<0>(v); }
+VF_E int* vd_uget_1(VD& v) { return &etl::unchecked_get<1>(v); }
+VF_E int const* vd_cuget_0(VD const& v) { return &etl::unchecked_get<0>(v); }
+VF_E int const* vd_cuget_1(VD const& v) { return &etl::unchecked_get<1>(v); }
+VF_E int* vd_uget_rv_0(VD& v) { int&& r = etl::unchecked_get<0>(etl::move(v)); return &r; }
+VF_E int const* vd_cuget_rv_1(VD const& v) { int const&& r = etl::unchecked_get<1>(etl::move(v)); return &r; }
+VF_E int* vd_sub_0(VD& v) { return &v[etl::index_v<0>]; }
+VF_E int* vd_sub_1(VD& v) { return &v[etl::index_v<1>]; }
+VF_E int const* vd_csub_0(VD const& v) { return &v[etl::index_v<0>]; }
+VF_E int const* vd_csub_1(VD const& v) { return &v[etl::index_v<1>]; }
+VF_E unsigned vd_rel6(VD const& a, VD const& b) { return rel6(a, b); }
+VF_E long vd_visit(VD const& v, flog_t* log) { return etl::visit(vist{log}, v); }
+VF_E long vd_visit_rv(VD& v, flog_t* log) { return etl::visit(vist{log}, etl::move(v)); }
+VF_E int vd_visit_mut(VD& v, flog_t* log) { return etl::visit(vist_set{log}, v); }
+VF_E long vd_visit_with_index(VD const& v, flog_t* log) { return etl::visit_with_index(visti{log}, v); }
+VF_E long vd_visit2(VD const& a, VD const& b, flog_t* log) { return etl::visit(vist2{log}, a, b); }
+VF_E long vd_visit_with_index2(VD const& a, VD const& b, flog_t* log) { return etl::visit_with_index(visti2{log}, a, b); }
+
+// ---------------------------------------------------------------- variant<unsigned,float,unsigned>
+VF_E void vu_default(VU* out) { new (out) VU; }
+VF_E void vu_inplace_0(VU* out, unsigned x) { new (out) VU(etl::in_place_index<0>, x); }
+VF_E void vu_inplace_1(VU* out, float x) { new (out) VU(etl::in_place_index<1>, x); }
+VF_E void vu_inplace_2(VU* out, unsigned x) { new (out) VU(etl::in_place_index<2>, x); }
+VF_E void vu_inplace_t_float(VU* out, float x) { new (out) VU(etl::in_place_type<float>, x); }
+VF_E void vu_copy_ctor(VU* out, VU const& o) { new (out) VU(o); }
+VF_E void vu_move_ctor(VU* out, VU& o) { new (out) VU(etl::move(o)); }
+VF_E VU* vu_copy_assign(VU& a, VU const& b) { return &(a = b); }
+VF_E VU* vu_move_assign(VU& a, VU& b) { return &(a = etl::move(b)); }
+VF_E unsigned* vu_emplace_0(VU& a, unsigned x) { return &a.emplace<0>(x); }
+VF_E float* vu_emplace_1(VU& a, float x) { return &a.emplace<1>(x); }
+VF_E unsigned* vu_emplace_2(VU& a, unsigned x) { return &a.emplace<2>(x); }
+VF_E float* vu_emplace_t_float(VU& a, float x) { return &a.emplace<float>(x); }
+VF_E void vu_swap_free(VU& a, VU& b) { swap(a, b); }
+VF_E size_t vu_index(VU const& v) { return v.index(); }
+VF_E bool vu_holds_float(VU const& v) { return etl::holds_alternative<float>(v); }
+VF_E unsigned* vu_get_if_0(VU* v) { return etl::get_if<0>(v); }
+VF_E float* vu_get_if_1(VU* v) { return etl::get_if<1>(v); }
+VF_E unsigned* vu_get_if_2(VU* v) { return etl::get_if<2>(v); }
+VF_E unsigned const* vu_cget_if_0(VU const* v) { return etl::get_if<0>(v); }
+VF_E float const* vu_cget_if_1(VU const* v) { return etl::get_if<1>(v); }
+VF_E unsigned const* vu_cget_if_2(VU const* v) { return etl::get_if<2>(v); }
+VF_E float* vu_get_if_float(VU* v) { return etl::get_if<float>(v); }
+VF_E float const* vu_cget_if_float(VU const* v) { return etl::get_if<float>(v); }
+VF_E unsigned* vu_uget_0(VU& v) { return &etl::unchecked_get<0>(v); }
+VF_E float* vu_uget_1(VU& v) { return &etl::unchecked_get<1>(v); }
+VF_E unsigned* vu_uget_2(VU& v) { return &etl::unchecked_get<2>(v); }
+VF_E unsigned const* vu_csub_0(VU const& v) { return &v[etl::index_v<0>]; }
+VF_E float const* vu_csub_1(VU const& v) { return &v[etl::index_v<1>]; }
+VF_E unsigned const* vu_csub_2(VU const& v) { return &v[etl::index_v<2>]; }
+VF_E unsigned vu_rel6(VU const& a, VU const& b) { return rel6(a, b); }
+VF_E long vu_visit(VU const& v, flog_t* log) { return etl::visit(vist{log}, v); }
+VF_E int vu_visit_mut(VU& v, flog_t* log) { return etl::visit(vist_set{log}, v); }
+VF_E long vu_visit_with_index(VU const& v, flog_t* log) { return etl::visit_with_index(visti{log}, v); }
+VF_E long vu_vd_visit(VU const& a, VD const& b, flog_t* log) { return etl::visit(vist2{log}, a, b); }
+VF_E long vu_vd_visit_with_index(VU const& a, VD const& b, flog_t* log) { return etl::visit_with_index(visti2{log}, a, b); }
+
+// ---------------------------------------------------------------- variant<int>: one alternative (visit takes its size-1 shortcut)
+VF_E void v1_default(V1* out) { new (out) V1; }
+VF_E void v1_from_int(V1* out, int const& x) { new (out) V1(x); }
+VF_E void v1_from_short(V1* out, short x) { new (out) V1(x); }
+VF_E void v1_inplace_0(V1* out, int x) { new (out) V1(etl::in_place_index<0>, x); }
+VF_E void v1_inplace_t(V1* out, int x) { new (out) V1(etl::in_place_type<int>, x); }
+VF_E void v1_copy_ctor(V1* out, V1 const& o) { new (out) V1(o); }
+VF_E void v1_move_ctor(V1* out, V1& o) { new (out) V1(etl::move(o)); }
+VF_E V1* v1_copy_assign(V1& a, V1 const& b) { return &(a = b); }
+VF_E V1* v1_move_assign(V1& a, V1& b) { return &(a = etl::move(b)); }
+VF_E V1* v1_assign_int(V1& a, int const& x) { return &(a = x); }
+VF_E int* v1_emplace_0(V1& a, int const& x) { return &a.emplace<0>(x); }
+VF_E int* v1_emplace_t(V1& a, int x) { return &a.emplace<int>(x); }
+VF_E void v1_swap_free(V1& a, V1& b) { swap(a, b); }
+VF_E size_t v1_index(V1 const& v) { return v.index(); }
+VF_E bool v1_holds_int(V1 const& v) { return etl::holds_alternative<int>(v); }
+VF_E int* v1_get_if_0(V1* v) { return etl::get_if<0>(v); }
+VF_E int const* v1_cget_if_int(V1 const* v) { return etl::get_if<int>(v); }
+VF_E int* v1_uget_0(V1& v) { return &etl::unchecked_get<0>(v); }
+VF_E int const* v1_csub_0(V1 const& v) { return &v[etl::index_v<0>]; }
+VF_E unsigned v1_rel6(V1 const& a, V1 const& b) { return rel6(a, b); }
+VF_E long v1_visit(V1 const& v, flog_t* log) { return etl::visit(vist{log}, v); }
+VF_E int v1_visit_mut(V1& v, flog_t* log) { return etl::visit(vist_set{log}, v); }
+VF_E long v1_visit_with_index(V1 const& v, flog_t* log) { return etl::visit_with_index(visti{log}, v); }
+VF_E long v1_visit2(V1 const& a, V1 const& b, flog_t* log) { return etl::visit(vist2{log}, a, b); }
+VF_E long v1_vd_visit_with_index(V1 const& a, VD const& b, flog_t* log) { return etl::visit_with_index(visti2{log}, a, b); }
+
+// ---------------------------------------------------------------- expected<int,int>: value and error have the same type
+struct gi_step {   // x -> expected<long,int>: value 3*x+1 for even x, error x-1 for odd x
+    flog_t* log;
+    auto operator()(int x) const -> ELI
+    {
+        log->calls++;
+        log->arg = x;
+        if ((x & 1) != 0) { return ELI(etl::unexpect, x - 1); }
+        return ELI(etl::in_place, 3L * x + 1L);
+    }
+};
+struct gi_recover {   // c -> expected<int,int>: value c/2 for c >= 0, otherwise error c+1
+    flog_t* log;
+    auto operator()(int c) const -> EI
+    {
+        log->calls++;
+        log->arg = c;
+        if (c >= 0) { return EI(etl::in_place, c / 2); }
+        return EI(etl::unexpect, c + 1);
+    }
+};
+VF_E void ei_default(EI* out) { new (out) EI(); }
+VF_E void ei_inplace(EI* out, int x) { new (out) EI(etl::in_place, x); }
+VF_E void ei_unexpect(EI* out, int x) { new (out) EI(etl::unexpect, x); }
+VF_E void ei_copy_ctor(EI* out, EI const& o) { new (out) EI(o); }
+VF_E void ei_move_ctor(EI* out, EI& o) { new (out) EI(etl::move(o)); }
+VF_E EI* ei_copy_assign(EI& a, EI const& b) { return &(a = b); }
+VF_E EI* ei_move_assign(EI& a, EI& b) { return &(a = etl::move(b)); }
+VF_E int* ei_emplace(EI& a, int const& x) { return &a.emplace(x); }
+VF_E void ei_swap_free(EI& a, EI& b) { swap(a, b); }
+VF_E bool ei_has_value(EI const& e) { return e.has_value(); }
+VF_E bool ei_bool(EI const& e) { return static_cast<bool>(e); }
+VF_E int* ei_arrow(EI& e) { return e.operator->(); }
+VF_E int const* ei_carrow(EI const& e) { return e.operator->(); }
+VF_E int* ei_deref(EI& e) { return &*e; }
+VF_E int const* ei_cderef(EI const& e) { return &*e; }
+VF_E int* ei_error(EI& e) { return &e.error(); }
+VF_E int const* ei_cerror(EI const& e) { return &e.error(); }
+VF_E int ei_value_or(EI const& e, int d) { return e.value_or(d); }
+VF_E int ei_value_or_rv(EI& e, int d) { return etl::move(e).value_or(d); }
+VF_E void ei_and_then(ELI* out, EI& e, flog_t* log) { new (out) ELI(e.and_then(gi_step{log})); }
+VF_E void ei_and_then_crv(ELI* out, EI const& e, flog_t* log) { new (out) ELI(etl::move(e).and_then(gi_step{log})); }
+VF_E void ei_or_else(EI* out, EI& e, flog_t* log) { new (out) EI(e.or_else(gi_recover{log})); }
+VF_E void ei_or_else_c(EI* out, EI const& e, flog_t* log) { new (out) EI(e.or_else(gi_recover{log})); }
+
+// ---------------------------------------------------------------- optional<bool>: the VALUE and the ENGAGED flag are both bools
+VF_E void ob_default(OB* out) { new (out) OB; }
+VF_E void ob_value(OB* out, bool const& x) { new (out) OB(x); }
+VF_E void ob_inplace(OB* out, bool x) { new (out) OB(etl::in_place, x); }
+VF_E void ob_make(OB* out, bool x) { new (out) OB(etl::make_optional(x)); }
+VF_E void ob_copy_ctor(OB* out, OB const& o) { new (out) OB(o); }
+VF_E OB* ob_copy_assign(OB& a, OB const& b) { return &(a = b); }
+VF_E OB* ob_assign_value(OB& a, bool const& x) { return &(a = x); }
+VF_E OB* ob_assign_nullopt(OB& a) { return &(a = etl::nullopt); }
+VF_E bool* ob_emplace(OB& a, bool const& x) { return &a.emplace(x); }
+VF_E void ob_reset(OB& a) { a.reset(); }
+VF_E void ob_swap(OB& a, OB& b) { a.swap(b); }
+VF_E bool ob_has_value(OB const& o) { return o.has_value(); }
+VF_E bool ob_bool(OB const& o) { return static_cast<bool>(o); }
+VF_E bool ob_not(OB const& o) { return !o; }
+VF_E bool const* ob_cderef(OB const& o) { return &*o; }
+VF_E bool const* ob_carrow(OB const& o) { return o.operator->(); }
+VF_E bool ob_value_or(OB const& o, bool d) { return o.value_or(d); }
+VF_E bool ob_value_or_rv(OB& o, bool d) { return etl::move(o).value_or(d); }
+VF_E unsigned ob_rel6(OB const& a, OB const& b) { return rel6(a, b); }
+VF_E unsigned ob_rel6_v(OB const& a, bool const& x)
+{
+    return (a == x ? 1U : 0U) | (a != x ? 2U : 0U) | (a < x ? 4U : 0U) | (a <= x ? 8U : 0U) | (a > x ? 16U : 0U) | (a >= x ? 32U : 0U);
+}
+VF_E unsigned v_rel6_ob(bool const& x, OB const& a)
+{
+    return (x == a ? 1U : 0U) | (x != a ? 2U : 0U) | (x < a ? 4U : 0U) | (x <= a ? 8U : 0U) | (x > a ? 16U : 0U) | (x >= a ? 32U : 0U);
+}
+VF_E unsigned ob_rel_null(OB const& a)
+{
+    return (a == etl::nullopt ? 1U : 0U) | (etl::nullopt == a ? 2U : 0U) | (a != etl::nullopt ? 4U : 0U) | (etl::nullopt != a ? 8U : 0U)
+         | (a < etl::nullopt ? 16U : 0U) | (etl::nullopt < a ? 32U : 0U);
+}
+struct fb_step {   // b -> optional<int>: engaged with 10 + b for true, disengaged for false
+    flog_t* log;
+    auto operator()(bool b) const -> OI
+    {
+        log->calls++;
+        log->arg = b ? 1 : 0;
+        return b ? OI{11} : OI{};
+    }
+};
+struct fb_fallback {
+    flog_t* log;
+    bool v;
+    bool engaged;
+    auto operator()() const -> OB
+    {
+        log->calls++;
+        return engaged ? OB{v} : OB{};
+    }
+};
+VF_E void ob_and_then(OI* out, OB const& o, flog_t* log) { new (out) OI(o.and_then(fb_step{log})); }
+VF_E void ob_or_else(OB* out, OB const& o, flog_t* log, bool v, bool engaged) { new (out) OB(o.or_else(fb_fallback{log, v, engaged})); }
+
+// ---------------------------------------------------------------- optional<P2>: trivially copyable non-scalar value
+VF_E void op_value(OP* out, P2 const& x) { new (out) OP(x); }
+VF_E OP* op_assign_value(OP& a, P2 const& x) { return &(a = x); }
+VF_E OP* op_assign_value_rv(OP& a, P2& x) { return &(a = etl::move(x)); }
+VF_E OP* op_copy_assign(OP& a, OP const& b) { return &(a = b); }
+VF_E P2* op_emplace(OP& a, P2 const& x) { return &a.emplace(x); }
+VF_E bool op_has_value(OP const& o) { return o.has_value(); }
+
+// ---------------------------------------------------------------- self-referential arguments (the literal spellings; \pre the named alternative is active)
+VF_E OI* oi_assign_deref_self(OI& o) { return &(o = *o); }
+VF_E OI* oi_assign_deref_self_rv(OI& o) { return &(o = etl::move(*o)); }
+VF_E OI* oi_assign_moved_deref_self(OI& o) { return &(o = *etl::move(o)); }
+VF_E int* oi_emplace_deref_self(OI& o) { return &o.emplace(*o); }
+VF_E OL* ol_assign_deref_self(OL& o) { return &(o = *o); }
+VF_E OP* op_assign_deref_self(OP& o) { return &(o = *o); }
+VF_E OP* op_assign_deref_self_rv(OP& o) { return &(o = etl::move(*o)); }
+VF_E OP* op_assign_arrow_self(OP& o) { P2 const& r = *o.operator->(); return &(o = r); }
+VF_E P2* op_emplace_deref_self(OP& o) { return &o.emplace(*o); }
+VF_E OB* ob_assign_deref_self(OB& o) { return &(o = *o); }
+VF_E VT* vt_assign_get0_self(VT& v) { return &(v = etl::unchecked_get<0>(v)); }
+VF_E VT* vt_assign_get1_self(VT& v) { return &(v = etl::unchecked_get<1>(v)); }
+VF_E VT* vt_assign_get2_self(VT& v) { return &(v = etl::unchecked_get<2>(v)); }
+VF_E VT* vt_assign_get2_self_rv(VT& v) { return &(v = etl::unchecked_get<2>(etl::move(v))); }
+VF_E long* vt_emplace2_get2_self(VT& v) { return &v.emplace<2>(etl::unchecked_get<2>(v)); }
+VF_E char* vt_emplace_t_char_self(VT& v) { return &v.emplace<char>(*etl::get_if<char>(&v)); }
+VF_E int* vd_emplace1_get1_self(VD& v) { return &v.emplace<1>(etl::unchecked_get<1>(v)); }
+VF_E VM* vm_assign_get1_self(VM& v) { return &(v = etl::unchecked_get<1>(v)); }
+VF_E V1* v1_assign_get0_self(V1& v) { return &(v = etl::unchecked_get<0>(v)); }
+VF_E int* ex_emplace_deref_self(EX& e) { return &e.emplace(*e); }
+VF_E int* ei_emplace_deref_self(EI& e) { return &e.emplace(*e); }
+VF_E EX* ex_move_assign_self(EX& e) { return &(e = etl::move(e)); }
+VF_E void vt_swap_self(VT& v) { swap(v, v); }
+VF_E void ex_swap_self(EX& e) { swap(e, e); }
 }
